@@ -89,6 +89,25 @@ def rand_note(rng, kinds=NONREL, vals=(-15, 15), octs=(-3, 3), p_acc=0.25, p_mod
     return n
 
 
+SIBLING = float(os.environ.get('VERIF_SIBLING', '0.1'))
+
+
+def sibling_note(rng, prev, p_acc, p_mode, p_amp):
+    """a note equal to an earlier note of the same chord except for (at most) one field — accidental, per-note mode,
+    dynamics — with the same kind, value, octave and duration.  Caches or look-ups keyed on an equality that omits a
+    field (seed C03-5: a memoised pitch function keyed on Note.__eq__, which ignores the accidental) only go wrong on
+    such near-duplicates, which independent random notes practically never produce."""
+    n = prev.copy()
+    which = rng.choice(['acc', 'acc', 'mode', 'amp', 'same'])
+    if which == 'acc' and n.type == 's' and p_acc > 0 and 0 <= n.val < 7:
+        n.accident = rng.choice([a for a in ACCS + [None] if a != n.accident])
+    elif which == 'mode' and n.type in ('s', 'h', 'su', 'sd') and p_mode > 0:
+        n.mode = rng.choice([m for m in MODES + [None] if m != n.mode])
+    elif which == 'amp' and p_amp > 0:
+        n = getattr(n, rng.choice(['pp', 'mp', 'f', 'fff']))
+    return n
+
+
 def rand_duration(rng, table_only=False):
     L = lib()
     if table_only or rng.random() < 0.8:
@@ -98,11 +117,13 @@ def rand_duration(rng, table_only=False):
 
 
 def rand_melody(rng, n_notes=(1, 5), kinds=None, p_rest=0.15, p_cont=0.15, first_free=True, durs=None,
-                p_acc=0.1, p_mode=0.1, p_amp=0.3, vals=(-8, 10), octs=(-1, 1)):
+                p_acc=0.1, p_mode=0.1, p_amp=0.3, vals=(-8, 10), octs=(-1, 1), sib=None):
     """list of notes: sounding notes of the given kinds, rests and continuations anywhere"""
     from musiclang import Silence, Continuation, Melody
     kinds = kinds or NONREL
     notes = []
+    if sib is None:
+        sib = []                                    # sounding notes generated so far for this chord (all parts)
     if rng.random() < STRETCH:
         n_notes = (n_notes[0], n_notes[1] + 6)      # sizes only: value / octave ranges are the caller's (text replay needs them)
     for i in range(rng.randint(*n_notes)):
@@ -112,9 +133,12 @@ def rand_melody(rng, n_notes=(1, 5), kinds=None, p_rest=0.15, p_cont=0.15, first
             notes.append(Silence(d))
         elif x < p_rest + p_cont:
             notes.append(Continuation(d))
+        elif sib and rng.random() < SIBLING:
+            notes.append(sibling_note(rng, rng.choice(sib), p_acc, p_mode, p_amp))
         else:
             notes.append(rand_note(rng, kinds=kinds, vals=vals, octs=octs, dur=d, p_acc=p_acc, p_mode=p_mode,
                                    p_amp=p_amp))
+            sib.append(notes[-1])
     return Melody(notes)
 
 
@@ -130,12 +154,13 @@ def rand_score(rng, n_chords=(1, 4), parts=('piano__0', 'violin__0', 'cello__0')
     for _ in range(rng.randint(*n_chords)):
         c, _t = rand_chord(rng, ext=(rng.choice(PLAIN_INVERTIBLE) if plain else None), octaves=(-1, 1), max_mods=2)
         sc = {}
+        sib = []
         for p in parts:
             if rng.random() < p_absent and len(parts) > 1:
                 continue
-            sc[p] = rand_melody(rng, kinds=kinds, **mel)
+            sc[p] = rand_melody(rng, kinds=kinds, sib=sib, **mel)
         if not sc:
-            sc[parts[0]] = rand_melody(rng, kinds=kinds, **mel)
+            sc[parts[0]] = rand_melody(rng, kinds=kinds, sib=sib, **mel)
         if equal_parts:
             D = max(m.duration for m in sc.values())
             for p, m in sc.items():
